@@ -114,6 +114,8 @@ type rop struct {
 	KeyS   string
 	KeyN   int
 	V      rval
+	Field  string // elem: the slice valued field
+	Idx    int    // elem: the index assigned
 }
 
 func argsJS(a []rarg) []any {
@@ -151,6 +153,8 @@ func (o rop) js() map[string]any {
 		ev["route"], ev["slot"], ev["hop"], ev["key"], ev["v"] = o.Route, o.Slot, o.Hop, key, o.V.js()
 	case "derefset":
 		ev["route"], ev["slot"], ev["hop"], ev["name"], ev["args"] = o.Route, o.Slot, o.Hop, o.Name, argsJS(o.Args)
+	case "elem":
+		ev["route"], ev["slot"], ev["field"], ev["idx"], ev["v"] = o.Route, o.Slot, o.Field, o.Idx, o.V.js()
 	}
 	return ev
 }
@@ -177,6 +181,10 @@ func ropFromJS(e map[string]any) rop {
 	o.Codec, _ = e["codec"].(string)
 	if s, ok := e["slot"].(float64); ok {
 		o.Slot = int(s)
+	}
+	o.Field, _ = e["field"].(string)
+	if s, ok := e["idx"].(float64); ok {
+		o.Idx = int(s)
 	}
 	if fs, ok := e["fields"].([]any); ok {
 		for _, f := range fs {
@@ -232,6 +240,9 @@ func opWrite(rt route, slot int, key string, v rval) rop {
 	}
 	return o
 }
+func opElem(route string, slot int, field string, idx int, v rval) rop {
+	return rop{Op: "elem", Route: route, Slot: slot, Field: field, Idx: idx, V: v}
+}
 func opDerefset(route string, slot int, hop, name string, args ...rarg) rop {
 	return rop{Op: "derefset", Route: route, Slot: slot, Hop: hop, Name: name, Args: args}
 }
@@ -281,7 +292,22 @@ func hopRoutes(fh, fp string) []route {
 	}
 }
 
+// element routes: assignment to one element of the slice the field F of X holds (I the index)
+func elemRoutes() []route {
+	return []route{
+		{"idxinfix", "", "sym", "{X.F[I] = V}"},
+		{"arrayidx", "", "sym", "(= (arrayidx X.F [I]) V)"},
+		{"aset", "", "sym", "(aset (:F X) I V)"},
+		{"asetarrow", "", "sym", "(aset (-> X F:) I V)"},
+	}
+}
+
 func routeTemplate(name string) string {
+	for _, r := range elemRoutes() {
+		if r.name == name {
+			return r.tmpl
+		}
+	}
 	for _, r := range directRoutes() {
 		if r.name == name {
 			return r.tmpl
@@ -399,7 +425,7 @@ func (d *recDriver) vtext(v rval) string {
 		case "string":
 			return `["a" "b"]`
 		case "float64":
-			return "[1.5]"
+			return "[1.5 2.5]"
 		}
 	case "eslice":
 		return "[]"
@@ -438,7 +464,7 @@ func (d *recDriver) vjson(v rval) string {
 		case "string":
 			return `["a","b"]`
 		case "float64":
-			return "[1.5]"
+			return "[1.5,2.5]"
 		}
 	case "eslice":
 		return "[]"
@@ -509,6 +535,13 @@ func (d *recDriver) render(o rop, slot int) string {
 		}
 		r := strings.NewReplacer("X", d.ivar(o.Slot), "H", o.Hop, "K", o.KeyS, "V", d.vtext(o.V))
 		return r.Replace(t) + "\n"
+	case "elem":
+		t := routeTemplate(o.Route)
+		if t == "" {
+			fatal("records: unknown route %q", o.Route)
+		}
+		r := strings.NewReplacer("X", d.ivar(o.Slot), "F", o.Field, "I", fmt.Sprint(o.Idx), "V", d.vtext(o.V))
+		return r.Replace(t) + "\n"
 	case "derefset":
 		payload := "(" + d.sname(o.Name) + d.argtext(o.Args) + ")"
 		switch o.Route {
@@ -554,7 +587,19 @@ func (d *recDriver) kind(v zygo.Sexp, live map[*zygo.SexpHash]int) any {
 		if x.Val[0] == zygo.SexpNull {
 			return []any{"nilslice"} // the language takes a slice's type from its first element
 		}
-		return []any{"slice", base(x.Val[0])}
+		same := true
+		for _, e := range x.Val {
+			if base(e) != base(x.Val[0]) {
+				same = false
+			}
+		}
+		switch {
+		case same:
+			return []any{"slice", base(x.Val[0])}
+		case len(x.Val) == 2:
+			return []any{"mslice", base(x.Val[0]), base(x.Val[1])}
+		}
+		return []any{"slice", "mixed"}
 	case *zygo.SexpHash:
 		if k, ok := live[x]; ok {
 			return []any{"inst", k}
@@ -950,6 +995,43 @@ func (g *recGen) crossver() {
 	}
 }
 
+// (g) element assignment into the slice a field holds: every element route x slice type x
+// element kind x index, on a filled, an unset, an empty and a non-slice field
+func (g *recGen) elements() {
+	for _, t := range []rtype{tSI, tSS, {"slice", "float64"}} {
+		right := rval{K: "slice", S: t.S}
+		for _, rt := range elemRoutes() {
+			ops := []rop{
+				opDeclare("B", fld("fa", t), fld("fb", tI64), fld("fc", tStr)),
+				opCtor("ctor", "B", arg("fa", right), arg("fb", vI64)), // 1
+				opCtor("ctor", "B"),                                  // 2: fa unset
+				opCtor("ctor", "B", arg("fa", vES), arg("fc", vNil)),  // 3: fa empty
+			}
+			for _, slot := range []int{1, 2, 3} {
+				for _, f := range []string{"fa", "fb", "fc", "zz"} {
+					for idx := 0; idx < 2; idx++ {
+						for _, v := range []rval{vI64, vStr, vF64} {
+							ops = append(ops, opElem(rt.name, slot, f, idx, v))
+						}
+					}
+				}
+			}
+			// refill and go through the elements in the other order
+			ops = append(ops, opWrite(directRoutes()[0], 1, "fa", right))
+			for idx := 1; idx >= 0; idx-- {
+				for _, v := range []rval{vF64, vStr, vI64} {
+					ops = append(ops, opElem(rt.name, 1, "fa", idx, v))
+				}
+			}
+			// whole-field writes after element writes
+			for _, v := range []rval{vSI, vSS, vES, vNil, right} {
+				ops = append(ops, opWrite(directRoutes()[0], 1, "fa", v), opElem(rt.name, 1, "fa", 0, vI64), opElem(rt.name, 1, "fa", 1, vStr))
+			}
+			g.emit("e", ops)
+		}
+	}
+}
+
 // alphabet of the exhaustive short histories; writes rotate through the routes
 func histAlphabet(rot int) []rop {
 	dr := directRoutes()
@@ -1010,6 +1092,8 @@ func histAlphabet(rot int) []rop {
 		opWrite(pickSym(12), 3, "fa", vI64),
 		opWrite(pickSym(13), 3, "fa", vStr),
 		opWrite(strk, 2, "fa", vI64),
+		opElem(elemRoutes()[rot%4].name, 2, "fc", 0, vI64),
+		opElem(elemRoutes()[(rot+1)%4].name, 2, "fc", 1, vStr),
 		opDerefset("addr", 2, "", "A"),
 		opDerefset("addr", 2, "", "A", arg("fa", vStr)),
 		opDerefset("addr", 1, "", "B", arg("fa", vStr)),
@@ -1189,6 +1273,8 @@ func (g *recGen) random() {
 				cr := pick(r, crs)
 				ops = append(ops, cr.op(declaredName(), randArgs(cr.kind == "decode")...))
 				nslots++
+			case x < 7 && x >= 6 && nslots > 0:
+				ops = append(ops, opElem(pick(r, elemRoutes()).name, 1+r.intn(nslots), pick(r, fnames), r.intn(2), pick(r, []rval{vI64, vStr, vF64})))
 			case x < 6 && nslots > 0:
 				rtn := pick(r, []string{"addr", "pfield"})
 				hop := ""
@@ -1235,6 +1321,7 @@ func init() {
 		g.constructs()
 		g.redecl()
 		g.crossver()
+		g.elements()
 		g.histories()
 		g.random()
 		return 0
